@@ -167,14 +167,17 @@ Definition value_fuel : nat := 64.
 Definition decl := (str * str * bool)%type.
 Definition contrib := (senv * list decl * list fitem * list fitem)%type.   (* env after, own decls, unconditional, conditional *)
 
+(* a mixin call means: the callee's body, evaluated here, with its parameters bound to the arguments *)
+Definition sem_call_handler := str -> list (list str) -> str -> str -> option (list str) -> senv -> sres contrib.
+
 (* one statement: what it adds to the enclosing body *)
-Fixpoint sem_node (media at_ : str) (parent : option (list str)) (e : senv) (n : node) {struct n} : sres contrib :=
+Fixpoint sem_node (callf : sem_call_handler) (media at_ : str) (parent : option (list str)) (e : senv) (n : node) {struct n} : sres contrib :=
   let body := fix body (media1 at1 : str) (parent1 : option (list str)) (e1 : senv) (l : list node) {struct l}
                 : sres (list decl * list fitem * list fitem) :=
     match l with
     | [] => SOk ([], [], [])
     | x :: r =>
-        sbind (sem_node media1 at1 parent1 e1 x) (fun '(e2, d, u, c) =>
+        sbind (sem_node callf media1 at1 parent1 e1 x) (fun '(e2, d, u, c) =>
           sbind (body media1 at1 parent1 e2 r) (fun '(d2, u2, c2) => SOk (d ++ d2, u ++ u2, c ++ c2)))
     end in
   match n with
@@ -182,6 +185,9 @@ Fixpoint sem_node (media at_ : str) (parent : option (list str)) (e : senv) (n :
       sbind (sval_toks value_fuel e val) (fun v => SOk (e, [(name, norm_val (concat_str v), imp)], [], []))
   | NVar x v => SOk (match e with f :: r => ((x, v) :: f) :: r | [] => [[(x, v)]] end, [], [], [])
   | NStmt toks => SOk (e, [], [MkItem media at_ [concat_str toks] []], [])
+  | NMixin _ _ _ => SOk (e, [], [], [])                   (* a definition emits nothing *)
+  | NCall name args =>
+      sbind (smap (sval_toks value_fuel e) args) (fun vals => callf name vals media at_ parent e)
   | NFrame sel fb =>
       sbind (body media at_ None ([] :: e) fb) (fun '(d, u, c) =>
         SOk (e, [], (match d with [] => [] | _ => [MkItem media at_ [sel] d] end) ++ u, c))
@@ -210,14 +216,67 @@ Fixpoint sem_node (media at_ : str) (parent : option (list str)) (e : senv) (n :
 Definition top_env (units : list node) : senv :=
   [fold_left (fun f n => match n with NVar x v => (x, v) :: f | _ => f end) units []].
 
-Fixpoint sem_units (e : senv) (units : list node) : sres (list fitem) :=
+(* ---- mixins = inlining ---- *)
+Record sdef := MkSDef { sd_name : str; sd_params : list (str * option (list vtok)); sd_body : list node }.
+Fixpoint sbind_params (params : list (str * option (list vtok))) (args : list (list str)) : option (list (str * list vtok)) :=
+  match params with
+  | [] => Some []
+  | (p, dflt) :: pr =>
+      match args with
+      | a :: ar => option_map (cons (p, map VT a)) (sbind_params pr ar)
+      | [] => match dflt with Some d => option_map (cons (p, d)) (sbind_params pr []) | None => None end
+      end
+  end.
+
+Section SCalls.
+  Variable defs : list sdef.
+  Fixpoint sem_body_list (callf : sem_call_handler) (media at_ : str) (parent : option (list str)) (e : senv) (l : list node)
+    : sres (senv * list decl * list fitem * list fitem) :=
+    match l with
+    | [] => SOk (e, [], [], [])
+    | x :: r => sbind (sem_node callf media at_ parent e x) (fun '(e2, d, u, c) =>
+                  sbind (sem_body_list callf media at_ parent e2 r) (fun '(e3, d2, u2, c2) => SOk (e3, d ++ d2, u ++ u2, c ++ c2)))
+    end.
+  Fixpoint sem_call (fuel : nat) (name : str) (args : list (list str)) (media at_ : str) (parent : option (list str)) (e : senv)
+    {struct fuel} : sres contrib :=
+    match fuel with
+    | O => SErr $"mixin recursion too deep"
+    | S f =>
+        let fix try (ds : list sdef) : sres contrib :=
+          match ds with
+          | [] => SOk (e, [], [], [])
+          | d :: rest =>
+              if str_eqb (sd_name d) name then
+                match sbind_params (sd_params d) args, sd_body d with
+                | Some binds, (_ :: _) as body =>
+                    (* parameters (and @arguments) live in a frame of their own around the body *)
+                    let frame := ($"@arguments", flat_map (fun a => map VT a ++ [VT [" "]]) args) :: rev binds in
+                    sbind (sem_body_list (sem_call f) media at_ parent (frame :: e) body) (fun '(_, d1, u, c) => SOk (e, d1, u, c))
+                | _, _ => try rest
+                end
+              else try rest
+          end in
+        try defs
+    end.
+End SCalls.
+
+Definition collect_sdefs (units : list node) : list sdef :=
+  flat_map (fun n => match n with
+                     | NMixin name params body => [MkSDef name params body]
+                     | NBlock [name] body => [MkSDef name [] body]
+                     | NBlock [name; [" "%char]] body => [MkSDef name [] body]
+                     | _ => []
+                     end) units.
+
+Fixpoint sem_units (callf : sem_call_handler) (e : senv) (units : list node) : sres (list fitem) :=
   match units with
   | [] => SOk []
-  | NVar _ _ :: r => sem_units e r
+  | NVar _ _ :: r => sem_units callf e r
   | n :: r =>
-      sbind (sem_node [] [] None e n) (fun '(_, d, u, c) => sbind (sem_units e r) (fun rest => SOk (u ++ c ++ rest)))
+      sbind (sem_node callf [] [] None e n) (fun '(_, d, u, c) => sbind (sem_units callf e r) (fun rest => SOk (u ++ c ++ rest)))
   end.
-Definition sem (units : list node) : sres (list fitem) := sem_units (top_env units) units.
+Definition sem (units : list node) : sres (list fitem) :=
+  sem_units (sem_call (collect_sdefs units) 66) (top_env units) units.
 
 (* comparison with what was read back from an output stylesheet *)
 Definition decl_eqb (a b : decl) : bool :=
